@@ -480,11 +480,43 @@ def gen_range_string(rng, valid=True):
     return gen_int_spelling(rng, False) + ':' + gen_int_spelling(rng, False)
 
 
+TINY_DECK = ('parser fixture\n1 0 -1 imp:n=1\n2 0 1 imp:n=0\n\n1 so 1\n\n'
+             + ''.join(f'tr{k} {k} 0 0\n' for k in range(1, 10)))
+
+
+def make_cell_parser():
+    '''A ParseMCNPCell built by its public constructor on a small deck with
+    TR1..TR9 (never by __new__ with hand-set attributes: the internal
+    attributes are not the harness's business).'''
+    from t4_geom_convert.Kernel.FileHandlers.Parser.ParseMCNPCell import \
+        ParseMCNPCell
+    with impl.mip_parser(TINY_DECK) as mip_p:
+        return ParseMCNPCell(mip_p, None, {})
+
+
 PARAM_TOKENS = ['0', '1', '-2', '0.5', '90', '1.5', '-0.25', '3', '12', '7',
                 '.5', '2.', '1e1', '1.5d1', '2.5-1', '+4', '-1.e-1', '3d0']
 BAD_PARAM_TOKENS = ['2r', '-', '1.5x', '.', '+e1', '1e', '1d+', '3j']
 TAILS = [[], [], ['imp:n', '1'], ['u', '3'], ['lat', '1', 'imp:n', '1'],
          ['trcl', '2'], ['vol', '1.0']]
+
+
+def fillid_card_options(shape, f_bounds, f_univs, lattice):
+    '''Options text of a cell card carrying the FILL / LAT keywords of one
+    to_fillid case, or None when the shape cannot be written on a card
+    (arrays of the wrong length, reversed ranges).'''
+    lat = f'lat={lattice} ' if lattice else ''
+    if shape == 'nofill':
+        return lat + 'imp:n=1'
+    if shape in ('plain', 'plain_lat_noopt', 'hom'):
+        return f'{lat}fill={f_univs} imp:n=1'
+    if shape in ('array', 'array_nolat'):
+        if not f_bounds or any(lo > hi for lo, hi in f_bounds):
+            return None
+        ranges = ' '.join(f'{lo}:{hi}' for lo, hi in f_bounds)
+        return (f'{lat}fill={ranges} ' + ' '.join(str(u) for u in f_univs)
+                + ' imp:n=1')
+    return None
 
 
 def gen_fill_tokens(rng):
@@ -494,7 +526,7 @@ def gen_fill_tokens(rng):
         n_par = rng.choice([0, 1, 3, 12, 2, 9])
         pars = [rng.choice(PARAM_TOKENS) for _ in range(n_par)]
         if n_par == 1:
-            pars = [str(rng.randint(1, 99))]
+            pars = [str(rng.randint(1, 9))]
         return str(rng.choice([1, 2, 17, 0])), pars + tail, 'plain'
     bs = [(lo, lo + n - 1) for lo, n in
           ((rng.randint(-3, 2), rng.choice([1, 1, 2, 3])) for _ in
@@ -513,7 +545,7 @@ def gen_fill_tokens(rng):
         k = rng.choice([0, 0, 0, 1, 2, 3, 3, 4, 6, 9, 12, 13])
         pars = [rng.choice(PARAM_TOKENS) for _ in range(k)]
         if k == 1:
-            pars = [str(rng.randint(1, 99))]
+            pars = [str(rng.randint(1, 9))]
         if k and rng.random() < 0.08:
             pars[rng.randrange(k)] = rng.choice(BAD_PARAM_TOKENS)
             shape = 'array:badparam'
@@ -946,9 +978,7 @@ def direct_ties(res, rng, quick):
 
     # -- parse_fill_kw: tokens after FILL -> (bounds, universes, parameters) --
     from t4_geom_convert.Kernel.FileHandlers.Parser import ParseMCNPCell as pm
-    parser = ParseMCNPCell.__new__(ParseMCNPCell)
-    parser.transforms = {k: [0.0, 0.0, 0.0, 1.0, 0.0, 0.0, 0.0, 1.0, 0.0,
-                             0.0, 0.0, 1.0] for k in range(100)}
+    parser = make_cell_parser()
     seen_consumed = []
     # module-level names of the parser module (imports of helpers): a rewrite
     # may import them differently; without them the tie still runs through the
@@ -1031,7 +1061,7 @@ def direct_ties(res, rng, quick):
     # -- parse_one_cell_worker: option string -> keyword tokens --
     class _Captured(Exception):
         pass
-    worker = ParseMCNPCell.__new__(ParseMCNPCell)
+    worker = make_cell_parser()
 
     def capture(kw_list):
         worker.captured = list(reversed(kw_list))
@@ -1087,6 +1117,16 @@ def direct_ties(res, rng, quick):
 
     # -- to_fillid --
     cases, metas = [], []
+    fill_worker = make_cell_parser()
+    try:
+        dict_ok = ParseMCNPCell.to_fillid(
+            {'f_bounds': None, 'f_univs': None, 'lattice': None}, None) is None
+    except Exception:       # pylint: disable=broad-except
+        dict_ok = False
+    if not dict_ok:
+        res.extra.setdefault('skipped', []).append(
+            'to_fillid no longer takes a plain keyword dict: the helper-level '
+            'call is skipped, to_fillid is tied through parse_one_cell_worker')
     for k in range(150 * mult):
         shape = rng.choice(['nofill', 'plain', 'plain_lat_noopt', 'hom',
                             'hom', 'array', 'array', 'array_nolat',
@@ -1125,7 +1165,32 @@ def direct_ties(res, rng, quick):
             if isinstance(val, int):
                 return ('univ', val)
             return ('spec', [tuple(b) for b in val.bounds], list(val.spec))
-        out = call(lambda a, b: canon(ParseMCNPCell.to_fillid(a, b)), kws, opt)
+        # public route: the keywords as text of a cell card, through
+        # parse_one_cell_worker (which calls to_fillid); the helper-level call
+        # with a hand-built keyword dict only while to_fillid takes a dict
+        text_opts = fillid_card_options(shape, f_bounds, f_univs, lattice)
+        if text_opts is not None:
+            out = call(lambda t, o: canon(fill_worker.parse_one_cell_worker(
+                0, o, ('0', '-1', t)).fillid), text_opts, opt)
+            if out[0] == 'err' and out[1] == 'ParseMCNPCellError':
+                out = None       # the parser refused the card before to_fillid
+        elif dict_ok:
+            out = call(lambda a, b: canon(ParseMCNPCell.to_fillid(a, b)),
+                       kws, opt)
+        else:
+            out = None
+        if out is None:
+            continue
+        if text_opts is not None and dict_ok:
+            direct = call(lambda a, b: canon(ParseMCNPCell.to_fillid(a, b)),
+                          kws, opt)
+            if direct != out:
+                res.violation('correspondence',
+                              f'to_fillid on a keyword dict gives {direct}, '
+                              f'through the cell card {text_opts!r}: {out}',
+                              {'input': {'options': text_opts},
+                               'theorem_or_correspondence': 'tie:to_fillid'},
+                              found_input=False)
 
         def cfill(val):
             if val[0] == 'none':
@@ -1318,16 +1383,17 @@ def classify(deck, meta, failure):
 COV = None      # line-coverage tracer (c06_cov.LineCov) of the current run
 
 
-def run_deck(deck, args, trace=False):
+def run_deck(deck, args, trace=False, text=None):
     '''(conv, records of develop_lattice calls)'''
     records = []
+    if text is None:
+        text = deckmod.render(deck)
     with spy_develop(records):
         if trace and COV is not None:
             with COV:
-                conv = impl.convert(deckmod.render(deck), args,
-                                    keep_stdout=False)
+                conv = impl.convert(text, args, keep_stdout=False)
         else:
-            conv = impl.convert(deckmod.render(deck), args, keep_stdout=False)
+            conv = impl.convert(text, args, keep_stdout=False)
     return conv, records
 
 
@@ -1365,7 +1431,12 @@ def deck_stream(res, rng, quick):
         if broken:
             fault = c06_gen.break_deck(gen_rng if forced_fault else rng, deck,
                                        meta, forced_fault)
-        text = deckmod.render(deck)
+        # FILL arrays written with the repeat shorthand (u nR), followed on the
+        # card by TRCL / IMP keywords: the corpus alternates, 35 % otherwise
+        text, short = c06_gen.render_text(
+            deck, rng, shorthand=(k % 2 == 0) if k < len(corpus) else None)
+        if short:
+            res.count('FILL array written with the nR shorthand')
         # conversion options: pot_fill builds the geometry of a filled element
         # differently under the inlining options (the filler's tree is inlined
         # AFTER its fill transformation / element translation); the corpus
@@ -1383,7 +1454,8 @@ def deck_stream(res, rng, quick):
         # the corpus, 40 random decks and every broken deck run under the
         # line-coverage tracer (tracing every conversion would double the time)
         conv, records = run_deck(deck, args,
-                                 trace=k < len(corpus) + 40 or broken)
+                                 trace=k < len(corpus) + 40 or broken,
+                                 text=text)
         payload = {'deck': text, 'args': args, 'abstract': deck, 'meta': meta,
                    'fault': fault}
         res.seen(text, nontrivial=meta['n_elements'] > 1 or broken)
